@@ -137,6 +137,18 @@ def gen_case(rng, params, idx):
             kw = [{"n": k, "t": rng.choice(pool), "req": rng.random() < 0.6} for k in sorted(kwn)]
             m = {"mid": i, "pos": pos, "kw": kw, "prio": rng.choice([0, 0, 0, 1, -1]), "kind": "leaf"}
         methods.append(m)
+    if rng.random() < 0.25:
+        # a twin: the same parameter types and priority as another method, the trailing parameter optional in one of
+        # them only - two distinct signatures that differ in nothing but which arguments may be omitted
+        cands = [m for m in methods if m["pos"] and not any(p.get("opt") for p in m["pos"])]
+        if cands:
+            src = rng.choice(cands)
+            twin = {"mid": len(methods), "pos": [dict(p) for p in src["pos"]], "kw": [dict(k) for k in src.get("kw", [])],
+                    "prio": src["prio"], "kind": "leaf"}
+            twin["pos"][-1]["opt"] = True
+            methods.insert(rng.randrange(len(methods) + 1), twin)
+            for i, m in enumerate(methods):
+                m["mid"] = i
     gen.strict_first(rng, methods, 0.15)
     spec = {"hier": hier, "methods": methods, "npos": npos, "exh": False, "callseed": rng.randrange(1 << 30)}
     if len(methods) >= 2 and rng.random() < 0.3:
@@ -155,7 +167,8 @@ def _calls(spec, env):
         return
     rng = random.Random(spec["callseed"])
     used_kw = sorted({k["n"] for m in spec["methods"] for k in m.get("kw", [])})
-    arities = sorted({len(m["pos"]) for m in spec["methods"]} | {spec["npos"]})
+    arities = sorted({k for m in spec["methods"]
+                      for k in range(sum(1 for p in m["pos"] if not p.get("opt")), len(m["pos"]) + 1)} | {spec["npos"]})
     for n in arities:
         tuples = list(itertools.product(names, repeat=n)) if len(names) ** n <= 512 else None
         if tuples is None:
